@@ -767,3 +767,53 @@ def rule_indexer(ctx) -> RuleResult:
     if n_calls == 0:
         res.notes.append("no get_indexer call in the package")
     return res
+
+
+# ---------------------------------------------------------------------------------------------
+# R-INDEXDIR (C16, C05): a re-indexer gathers with the positions of the TARGET labels in the SOURCE labels.
+# reindex_*(array, from_, to, ...): `array`'s last axis is labelled by `from_`, the result by `to`.  Reading `array[..., idx]` needs
+# idx[j] = position of to[j] in from_, i.e. from_.get_indexer(to).  The opposite call, to.get_indexer(from_), gives where each source entry
+# *goes* -- right as scatter coordinates (the sparse re-indexer), wrong as a gather index: for a permutation it is the inverse permutation,
+# so labels come back in the requested order with the values of other labels (self-inverse permutations -- swaps -- hide it).
+def rule_indexdir(ctx) -> RuleResult:
+    res = RuleResult("R-INDEXDIR", "re-indexers gather from the data with from_.get_indexer(to), never with the inverse lookup", min_instances=2)
+    n = 0
+    for q, f in sorted(ctx.prog.funcs.items()):
+        if isinstance(f.node, ast.Lambda) or not {"from_", "to"} <= set(f.params):
+            continue
+        data = f.params[0]
+        calls = [c for c in walk_own(f.node) if isinstance(c, ast.Call) and isinstance(c.func, ast.Attribute) and c.func.attr == "get_indexer"
+                 and isinstance(c.func.value, ast.Name)]
+        if not calls:
+            continue
+        bound: dict[str, list] = {}
+        for a in walk_own(f.node):
+            if isinstance(a, ast.Assign) and len(a.targets) == 1 and isinstance(a.targets[0], ast.Name) and a.value in calls:
+                bound.setdefault(a.targets[0].id, []).append(a.value)
+        # lists that carry an indexer: L[k] = name
+        carriers: dict[str, set] = {}
+        for a in walk_own(f.node):
+            if isinstance(a, ast.Assign) and len(a.targets) == 1 and isinstance(a.targets[0], ast.Subscript) and isinstance(a.targets[0].value, ast.Name) \
+                    and isinstance(a.value, ast.Name) and a.value.id in bound:
+                carriers.setdefault(a.targets[0].value.id, set()).add(a.value.id)
+        for c in calls:
+            n += 1
+            recv = c.func.value.id
+            names = {nm for nm, vs in bound.items() if c in vs}
+            gathers = []
+            for s in walk_own(f.node):
+                if isinstance(s, ast.Subscript) and isinstance(s.ctx, ast.Load) and isinstance(s.value, ast.Name) and s.value.id == data:
+                    inside = {x.id for x in ast.walk(s.slice) if isinstance(x, ast.Name)}
+                    if any(x is c for x in ast.walk(s.slice)) or (inside & names) or any(carriers.get(l, set()) & names for l in inside):
+                        gathers.append(s)
+            res.inst(f"{q}: {norm(c)} -> {sorted(names) or '(inline)'}: used to gather from '{data}' {len(gathers)}x; receiver is the source labels: {recv == 'from_'}",
+                     f"{q}|{norm(c)}")
+            if gathers and recv != "from_":
+                res.report(f"{q}|gather-with-inverse-lookup|{norm(c)}", f.where(gathers[0]), q,
+                           f"'{norm(gathers[0])[:50]}' reads the data at positions computed by '{norm(c)}' -- the position of each SOURCE label in the target, the inverse of "
+                           "what a gather needs (from_.get_indexer(to)): when the labels are a permutation of the requested ones (cohorts / blockwise with sort=False) "
+                           "every label comes back in the right slot with the value of another label, unless the permutation is its own inverse")
+    if n == 0:
+        res.notes.append("no get_indexer call in a (data, from_, to) re-indexer")
+        res.min_instances = 0
+    return res
